@@ -65,6 +65,36 @@ def polars_horizontal_bug_applies(prog, where):
     return has_h and trigger
 
 
+def polars_sortby_bug_applies(prog, where):
+    """D18 (program feature): an unpartitioned order-dependent window function with arrange= on Polars whose
+    frame is joined / unioned later: the Polars optimizer drops the order-restoring sort_by (reproduced in
+    pure Polars 1.44, notes/polars_bugs.py), so values are paired with the wrong rows."""
+    from . import kf
+
+    known = {st["out"] for st in prog["steps"]}
+    idxs = kf.ancestors(prog, where) if (isinstance(where, int) and where < len(prog["steps"])) or where in known else list(range(len(prog["steps"])))
+    seen = False
+    for i in idxs:
+        st = prog["steps"][i]
+        if st["verb"] == "mutate":
+            for n in kf.walk(st["kw"]):
+                if n.get("k") == "fn" and n["op"] in ("cum_sum", "shift", "row_number") and n.get("arr") and not n.get("pb"):
+                    seen = True
+        if seen and st["verb"] in ("join", "union"):
+            return True
+    return False
+
+
+def has_constant_condition(prog):
+    from . import kf
+
+    for st in prog["steps"]:
+        for n in kf.walk(st):
+            if n.get("k") == "case" and any(not kf.has_col(c) for c, _v in n["cases"]):
+                return True
+    return False
+
+
 @dataclasses.dataclass
 class Finding:
     kind: str
@@ -318,6 +348,16 @@ def run_program(prog, backends=("pol", "sqlite"), opts=None, be_cache=None) -> O
                     # non-finite results, ...) may legitimately raise inside the engine
                     out.excluded[be] = "D3:engine error on undefined data"
                     continue
+                if be == "sqlite" and "ON clause references tables to its right" in str(exp_exc):
+                    # D19: SQLite 3.40 cannot flatten a FULL JOIN inside a compound / sub-select (engine limit)
+                    out.excluded[be] = "D19"
+                    continue
+                if be == "pol" and "to be broadcasted, ensure it is a scalar" in str(exp_exc) and has_constant_condition(prog):
+                    out.excluded[be] = "D16"  # same Polars broadcasting bug, triggered by a constant when-condition
+                    continue
+                if be == "pol" and type(exp_exc).__name__ == "PanicException" and "JoinType::Cross" in str(exp_exc):
+                    out.excluded[be] = "D20"  # Polars panics for an equi-join that uses one key column twice
+                    continue
                 if be == "pol" and ENGINE_BUG_RE.search(str(exp_exc)) and _has_horizontal(prog):
                     # D16: a Polars optimizer bug (reproduced without pydiverse.transform, correct with
                     # optimizations off): horizontal min/max with a literal over join-padded columns
@@ -374,6 +414,9 @@ def run_program(prog, backends=("pol", "sqlite"), opts=None, be_cache=None) -> O
     for f in out.findings:
         if f.backend == "pol" and f.kind.startswith(("value:pol", "exc:pol")) and polars_horizontal_bug_applies(prog, f.step):
             out.excluded["pol"] = "D16"
+            continue
+        if f.backend == "pol" and f.kind.startswith("value:pol") and polars_sortby_bug_applies(prog, f.step):
+            out.excluded["pol"] = "D18"
             continue
         kept.append(f)
     out.findings = kept
